@@ -35,7 +35,7 @@ def subject_texts(tree, tseed, extra=(), limit=8, big=0):
     out.extend(extra)
     if big and dsl.unbounded_depth(tree) < 2:
         seps2 = ['\n', ' ', 'x', '-']
-        out.append(''.join(rng.choice(ws) + rng.choice(seps2) for _ in range(big)))
+        out.insert(0, ''.join(rng.choice(ws) + rng.choice(seps2) for _ in range(big)))     # first: callers may truncate the list
     out.append('')
     seen, res = set(), []
     for t in out:
